@@ -77,7 +77,7 @@ class Case final : public sim::CaseBase {
         rd.yield_in_cs = g.Flip();
         rd.gap = static_cast<int>(g.Draw(3));
         rd.guard_origin = IsGuard(f) ? static_cast<int>(g.Draw(3)) : 0;
-        rd.guard_moves = IsGuard(f) && g.Draw(3) == 2 ? 1 + static_cast<int>(g.Draw(3)) : 0;
+        rd.guard_moves = IsGuard(f) && g.Draw(3) == 2 ? 1 + static_cast<int>(g.Draw(4)) : 0;
         rs.push_back(rd);
       }
       rounds.push_back(rs);
@@ -96,7 +96,7 @@ class Case final : public sim::CaseBase {
           static const char* origins[] = {"mutex.Guard*()/TryGuard*()", "guard{m, defer_lock} then guard.Lock()/TryLock()", "guard{m, adopt_lock} after m.Lock*() (try forms: as 0)"};
           j.KV("release", r.explicit_unlock ? "UnlockHere()" : "guard destruction").KV("guard_made_by", origins[r.guard_origin]);
           static const char* moves[] = {"", "guard.Release(), then UnlockHere*() on the mutex", "moved into a second guard (move constructor)",
-                                        "swapped into an empty guard (Swap)"};
+                                        "swapped into an empty guard (Swap)", "released by move-assigning an empty guard into it (guard = {})"};
           if (r.guard_moves != 0) {
             j.KV("before_release", moves[r.guard_moves]);
           }
@@ -318,12 +318,29 @@ yaclib::Future<> Worker(Case* c, M* m, int w, yaclib::IExecutor* e) {
         }
         if (!g) {
           r.try_failed = true;
+          if (r.guard_moves == 2) {
+            // a refused try leaves a guard that does not own the lock: moving it around must not make anything own (and later release) it
+            SIM_PROBE("not_owning_guard_moved");
+            yaclib::UniqueGuard<M> moved{std::move(g)};
+            if (moved.OwnsLock() || g.OwnsLock()) {
+              sim::Fail("GUARD_NOT_OWNING", "after move-constructing from a guard that does not own the lock, one of the two guards claims to own it");
+            }
+          }
           if (r.form == kGuard) {
             sim::Fail("GUARD_NOT_OWNING", "co_await Guard() returned a guard that does not own the lock");
           }
           break;
         }
         CRITICAL_SECTION();
+        if (r.guard_moves == 4) {
+          // move-assignment swaps: the lock goes to the temporary, whose destructor releases it
+          SIM_PROBE("guard_released_by_assignment");
+          g = yaclib::UniqueGuard<M>{};
+          if (g.OwnsLock()) {
+            sim::Fail("GUARD_NOT_OWNING", "a guard still owns the lock after an empty guard was move-assigned into it");
+          }
+          break;
+        }
         if (r.guard_moves == 1) {
           SIM_PROBE("guard_released_by_hand");
           M* released = g.Release();
@@ -366,12 +383,29 @@ yaclib::Future<> Worker(Case* c, M* m, int w, yaclib::IExecutor* e) {
         }
         if (!g) {
           r.try_failed = true;
+          if (r.guard_moves == 2) {
+            // a refused try leaves a guard that does not own the lock: moving it around must not make anything own (and later release) it
+            SIM_PROBE("not_owning_guard_moved");
+            yaclib::SharedGuard<M> moved{std::move(g)};
+            if (moved.OwnsLock() || g.OwnsLock()) {
+              sim::Fail("GUARD_NOT_OWNING", "after move-constructing from a guard that does not own the lock, one of the two guards claims to own it");
+            }
+          }
           if (r.form == kGuardShared) {
             sim::Fail("GUARD_NOT_OWNING", "co_await GuardShared() returned a guard that does not own the lock");
           }
           break;
         }
         CRITICAL_SECTION();
+        if (r.guard_moves == 4) {
+          // move-assignment swaps: the lock goes to the temporary, whose destructor releases it
+          SIM_PROBE("guard_released_by_assignment");
+          g = yaclib::SharedGuard<M>{};
+          if (g.OwnsLock()) {
+            sim::Fail("GUARD_NOT_OWNING", "a guard still owns the lock after an empty guard was move-assigned into it");
+          }
+          break;
+        }
         if (r.guard_moves == 1) {
           SIM_PROBE("guard_released_by_hand");
           M* released = g.Release();
